@@ -8,3 +8,8 @@ import DiplomatModel.Props.C02
 #print axioms DiplomatModel.Props.C02.optional_roundtrip
 #print axioms DiplomatModel.Props.C02.optional_pointer_roundtrip
 #print axioms DiplomatModel.Props.C02.option_unit_return
+#print axioms DiplomatModel.Props.C02.guards_agree
+#print axioms DiplomatModel.Props.C02.cpp_param_total_partial
+#print axioms DiplomatModel.Props.C02.cpp_args_match_c_params
+#print axioms DiplomatModel.Props.C02.fallible_return_shape
+#print axioms DiplomatModel.Props.C02.nullable_return_shape
